@@ -278,7 +278,8 @@ func (w *World) NewParty(name string, funds int64) *Party {
 		p.mu.Lock()
 		p.channels[ch.ID()] = ch
 		p.mu.Unlock()
-		if !p.NoWatch && !ch.IsVirtualChannel() {
+		nested := ch.Parent() != nil && ch.Parent().Parent() != nil // the local watcher handles one level of sub-channels
+		if !p.NoWatch && !ch.IsVirtualChannel() && !nested {
 			// until the watcher has accepted the channel the world counts as busy (closing a
 			// channel while its Watch call is starting crashes inside the library)
 			atomic.AddInt64(&w.Busy, 1)
@@ -439,7 +440,8 @@ func (p *Party) AwaitChannel(id channel.ID) *client.Channel {
 	deadline := time.After(p.Timeout)
 	for {
 		if ch := p.Channel(id); ch != nil {
-			if !p.NoWatch && !ch.IsVirtualChannel() {
+			nested := ch.Parent() != nil && ch.Parent().Parent() != nil
+			if !p.NoWatch && !ch.IsVirtualChannel() && !nested {
 				p.AwaitWatched(id)
 			}
 			return ch
